@@ -9,6 +9,9 @@
 (***************************************************************************)
 EXTENDS Wire, Abstract
 
+Flatten2(px) == LET n == Len(px) IN IF n = 0 THEN <<>> ELSE
+                LET m == Len(px[1]) IN [i \in 1 .. n * m |-> px[((i - 1) \div m) + 1][((i - 1) % m) + 1]]
+
 V(r, props, what) == <<[id |-> r.id, i |-> r.i, name |-> r.name, props |-> props, what |-> what]>>
 Chk(ok, r, props, what) == IF ok THEN <<>> ELSE V(r, props, what)
 
@@ -32,6 +35,7 @@ CallProps(sc, d, r) ==
                 [] n = "set_orientation" -> {"C10"}
                 [] n \in {"scroll_region", "scroll_offset"} -> {"C16"}
                 [] n \in {"sleep", "wake"} -> {"C13"}
+                [] n = "raw" -> {"C18"}
                 [] n \in {"xport.send_command", "xport.write_raw", "xport.send_pixels", "xport.send_repeated_pixel"}
                      -> IF sc.cfg.iface = "spi" THEN {"C06"} ELSE {"C07"}
                 [] n = "bus.set_value" -> {"C07"}
@@ -69,7 +73,7 @@ JudgeDrawing(sc, d, img, w0, w1, r, rowcap) ==
       fb == FbView(w1.ctl)
       pfb == (IF n \in {"set_pixel", "set_pixels"} \/ inb THEN {"C01"} ELSE {}) \cup
              (IF IsDrawTarget(n) /\ ~inb THEN {"C02"} ELSE {}) \cup
-             (IF n = "draw_iter" /\ inb THEN {"C03"} ELSE {}) \cup
+             (IF n = "draw_iter" THEN {"C03"} ELSE {}) \cup
              (IF n = "fill_contiguous" THEN {"C04"} ELSE {}) \cup
              (IF d.reoriented THEN {"C10"} ELSE {}) \cup
              (IF d.faulted THEN {"C12"} ELSE {}) \cup
@@ -185,6 +189,9 @@ JudgeOther(sc, d, w0, w1, r) ==
     [] n = "tearing" ->
          Chk(IF a.mode = "off" THEN One(52, <<>>) ELSE IF a.mode = "v" THEN One(53, <<0>>) ELSE One(53, <<1>>), r, {"C18"},
              "tearing-effect command malformed")
+    [] n = "raw" ->
+         Chk(One(a.op, a.params) \/ (a.op = 44 /\ Len(cm) = 1 /\ cm[1].op = 44 /\ cm[1].n = Len(a.params)), r, {"C18"},
+             "write_raw through dcs() did not put exactly the instruction and bytes on the bus")
     [] n \in {"sleep", "wake"} ->
          Chk(r.obs.sleeping = (n = "sleep"), r, {"C13"}, "is_sleeping() does not follow the call")
       \o Chk(c.sleep = (n = "sleep"), r, {"C13"}, "controller sleep state differs from the call")
@@ -222,11 +229,16 @@ JudgeFault(sc, d, w0, w1, r) ==
          "sleep flag changed although the command failed")
   \o Chk(r.name # "init" \/ Cardinality({i \in 1 .. Len(w1.cmds) : w1.cmds[i].op = 1}) <= 1, r, {"C12", "C17"},
          "the software reset was sent more than once")
+  \o Chk(sc.kind # "xport" \/ r.name \notin {"xport.send_pixels", "xport.send_repeated_pixel"} \/
+         (LET got == SubSeq(w1.ctl.burst, Len(w0.ctl.burst) + 1, Len(w1.ctl.burst))
+              exp == IF r.name = "xport.send_pixels" THEN Flatten2(r.args.px)
+                     ELSE RepWords(r.args.pixel, r.args.count[1] * 65536 + r.args.count[2])
+          IN Len(got) <= Len(exp) /\ got = SubSeq(exp, 1, Len(got)) /\ \A i \in 1 .. Len(w1.cmds) : w1.cmds[i].op = -1),
+         r, {"C12", IF sc.cfg.iface = "spi" THEN "C06" ELSE "C07"},
+         "the words that reached the bus before the failure are not a prefix of the words to send")
 
 ---------------------------------------------------------------------------
 \* transports addressed directly (C06, C07, C20)
-Flatten2(px) == LET n == Len(px) IN IF n = 0 THEN <<>> ELSE
-                LET m == Len(px[1]) IN [i \in 1 .. n * m |-> px[((i - 1) \div m) + 1][((i - 1) % m) + 1]]
 First16(q) == IF Len(q) <= 16 THEN q ELSE SubSeq(q, 1, 16)
 
 JudgeXport(sc, w0, w1, r) ==
